@@ -82,7 +82,7 @@ use serde_json::{
 };
 use std::collections::BTreeMap;
 
-const RULE: &str = "lib: code lengths {0, 1..17, <300, 16 KiB*k + {-8,-7,-1,0,1,7,8} for k=1..6, uniform up to 100 KiB} x slot sets of 0..32 slots (random / pooled keys, unsorted, duplicate keys with equal or different values) x random salts: Contract::root_from_code, Contract::root, initial_state_root, default_state_root, Contract::id, Input::predicate_owner, is_predicate_owner_valid against the specification formulas over refmodel::rfc6962 / refmodel::smt / sha2. vm: deploy (Create with the reference ContractCreated output through into_checked_basic + Transactor::deploy over MemoryStorage, storage inspected; a flipped id / state root must be rejected by checking; CROO on the deployed contract; the same Create object pre-computed, then code / salt / slots replaced in place and checked again: the earlier identifiers must be rejected, the reference identifiers of the present contents accepted and deployed under), croo (contract stored under an arbitrary id, script CROO + LOGD), predicate (coin / message-coin / message-data predicate `ret $one` + filler of the chosen length: reference owner accepted by checking and check_predicates, flipped owner rejected). class = (len mod 8, len relative to k*16 KiB, slot count bucket, path)";
+const RULE: &str = "lib: code lengths {0, 1..17, <300, 16 KiB*k + {-8,-7,-1,0,1,7,8} for k=1..6, uniform up to 100 KiB} x slot sets of 0..32 slots (random / pooled keys, unsorted, duplicate keys with equal or different values, mined keys whose SHA-256 images share >= 32 leading bits) x random salts: Contract::root_from_code, Contract::root, initial_state_root, default_state_root, Contract::id, Input::predicate_owner, is_predicate_owner_valid against the specification formulas over refmodel::rfc6962 / refmodel::smt / sha2. vm: deploy (Create with the reference ContractCreated output through into_checked_basic + Transactor::deploy over MemoryStorage, storage inspected; a flipped id / state root must be rejected by checking; CROO on the deployed contract; the same Create object pre-computed, then code / salt / slots replaced in place and checked again: the earlier identifiers must be rejected, the reference identifiers of the present contents accepted and deployed under), croo (contract stored under an arbitrary id, script CROO + LOGD), predicate (coin / message-coin / message-data predicate `ret $one` + filler of the chosen length: reference owner accepted by checking and check_predicates, flipped owner rejected). class = (len mod 8, len relative to k*16 KiB, slot count bucket, path)";
 
 const LEAF: usize = 16 * 1024;
 const SEED: &[u8] = b"FUEL"; // 0x4655454C
@@ -166,7 +166,50 @@ fn class(n: usize, slots: usize, path: &str) -> String {
     format!("m{}|{}|slots {}|{path}", n % 8, rel_class(n), bucket(slots as u64))
 }
 
+/// Pairs (and a few triples) of slot keys whose SHA-256 images - the keys of the sparse
+/// state tree - share at least their first 32 bits: the tree then has a long common path,
+/// something random keys never produce. Mined once (about 2^17 hashes, birthday search on
+/// the first four bytes).
+fn close_hashed_keys() -> &'static Vec<Vec<[u8; 32]>> {
+    static KEYS: std::sync::OnceLock<Vec<Vec<[u8; 32]>>> = std::sync::OnceLock::new();
+    KEYS.get_or_init(|| {
+        let mut buckets: std::collections::HashMap<[u8; 4], Vec<[u8; 32]>> = std::collections::HashMap::new();
+        for i in 0u64..200_000 {
+            let mut k = [0u8; 32];
+            k[..8].copy_from_slice(b"c15-mine");
+            k[24..].copy_from_slice(&i.to_be_bytes());
+            let h = sha256(&[&k[..]]);
+            buckets.entry([h[0], h[1], h[2], h[3]]).or_default().push(k);
+        }
+        let mut groups: Vec<Vec<[u8; 32]>> = buckets.into_values().filter(|g| g.len() >= 2).collect();
+        groups.sort();
+        groups
+    })
+}
+
 fn gen_slots(rng: &mut Rng, allow_dups: bool) -> Vec<([u8; 32], [u8; 32])> {
+    if rng.chance(1, 8) {
+        // one or two groups of keys with close hashed images, plus some ordinary keys
+        let groups = close_hashed_keys();
+        let mut v: Vec<([u8; 32], [u8; 32])> = vec![];
+        if !groups.is_empty() {
+            for _ in 0..1 + rng.below(2) {
+                for k in &groups[rng.usize_below(groups.len())] {
+                    v.push((*k, rng.arr()));
+                }
+            }
+        }
+        for _ in 0..rng.below(5) {
+            v.push((rng.arr(), rng.arr()));
+        }
+        let mut seen = std::collections::BTreeSet::new();
+        v.retain(|(k, _)| seen.insert(*k));
+        let n = v.len();
+        for i in (1..n).rev() {
+            v.swap(i, rng.usize_below(i + 1));
+        }
+        return v;
+    }
     let n = match rng.below(6) {
         0 => 0,
         1 => 1,
